@@ -115,7 +115,12 @@ impl PageCache {
 
     /// Removes a frame from the cache for deallocation.
     pub(crate) fn remove(&mut self, id: PageId) -> Option<MemFrame> {
-        self.frames.swap_remove(&id).filter(|frame| frame.is_free())
+        // A pinned frame stays in the cache: taking it out would drop the cache's handle to a
+        // page somebody else is still using.
+        if !self.frames.get(&id)?.is_free() {
+            return None;
+        }
+        self.frames.swap_remove(&id)
     }
 
     pub fn evict(&mut self) -> io::Result<Option<MemFrame>> {
